@@ -194,6 +194,23 @@ class Built:
     pass
 
 
+def opt_values(tp, torch, o):
+    """(optimizer class, optimizer_args, lr, scheduler kwargs of OptimizerSetting) of an optimizer spec"""
+    if o["kind"] == "sgd":
+        args = dict(momentum=float(Fraction(o["momentum"])), dampening=float(Fraction(o["dampening"])),
+                    weight_decay=float(Fraction(o["wd"])))
+        cls = torch.optim.SGD
+    else:
+        args = dict(betas=(0.9, 0.99), weight_decay=float(Fraction(o.get("wd", 0))))
+        cls = torch.optim.Adam
+    sched = {}
+    if o.get("step_size"):
+        sched = dict(scheduler_class=torch.optim.lr_scheduler.StepLR,
+                     scheduler_args=dict(step_size=o["step_size"], gamma=float(Fraction(o["gamma"]))),
+                     scheduler_frequency=o.get("freq", 1))
+    return cls, args, float(Fraction(o["lr"])), sched
+
+
 def build(case):
     """fresh torchphysics objects for `case`; identical calls give identical objects"""
     tp = common.use_repo()
@@ -340,23 +357,14 @@ def build(case):
 
     B.train = [mk_cond(i, c, "t") for i, c in enumerate(case["train"])]
     B.val = [mk_cond(i, c, "v") for i, c in enumerate(case["val"])]
+    B.opt_class, B.opt_args, B.lr, B.sched = opt_values(tp, torch, case["opt"])
     o = case["opt"]
-    if o["kind"] == "sgd":
-        args = dict(momentum=float(Fraction(o["momentum"])), dampening=float(Fraction(o["dampening"])),
-                    weight_decay=float(Fraction(o["wd"])))
-        B.opt_class = torch.optim.SGD
+    if case.get("default_args") and o["momentum"] == "0" and o["dampening"] == "0" and o.get("wd", "0") == "0":
+        # the library's default `optimizer_args={}` (one dict object shared by all such settings)
+        B.opt_args = {}
+        B.setting = tp.solver.OptimizerSetting(B.opt_class, B.lr, **B.sched)
     else:
-        args = dict(betas=(0.9, 0.99), weight_decay=float(Fraction(o.get("wd", 0))))
-        B.opt_class = torch.optim.Adam
-    B.opt_args = args
-    B.lr = float(Fraction(o["lr"]))
-    sched = {}
-    if o.get("step_size"):
-        sched = dict(scheduler_class=torch.optim.lr_scheduler.StepLR,
-                     scheduler_args=dict(step_size=o["step_size"], gamma=float(Fraction(o["gamma"]))),
-                     scheduler_frequency=o.get("freq", 1))
-    B.sched = sched
-    B.setting = tp.solver.OptimizerSetting(B.opt_class, B.lr, optimizer_args=dict(args), **sched)
+        B.setting = tp.solver.OptimizerSetting(B.opt_class, B.lr, optimizer_args=dict(B.opt_args), **B.sched)
     B.solver = tp.solver.Solver(B.train, B.val, optimizer_setting=B.setting)
     if case["channel"] == "rat":
         B.solver.double()      # Parameter(...) and AdaptiveWeightLayer create float32 tensors
@@ -562,9 +570,10 @@ def train_reachable(case, B):
     return names
 
 
-def run_reference(case, N=None):
-    """the plain loop of the property text around the same torch optimizer and scheduler"""
-    B = build(case)
+def run_reference(case, N=None, B=None):
+    """the plain loop of the property text around the same torch optimizer and scheduler
+    (B given: continue on existing objects with the optimizer values stored in B)"""
+    B = B or build(case)
     torch = B.torch
     names = train_reachable(case, B)
     bynames = {name: t for name, t, _ in B.tensors}
@@ -870,9 +879,132 @@ def describe(case):
                 opt=case["opt"]["kind"], val_every=case.get("val_every"))
 
 
+# ------------------------------------------------------------------------------------------
+# histories: several solvers / fits in ONE process (settings with the default optimizer_args, a user
+# dict shared by settings, one OptimizerSetting object reused with changed fields, shared condition and
+# model objects across solvers).  Oracle: the reference loop following the same history.
+
+def gen_history(rng, channel):
+    case = gen_case_rat(rng, Nmax=4) if channel == "rat" else gen_case_torch(rng, Nmax=4)
+    case["val"] = case["val"][:1]
+    lrs = rng.sample(["1/4", "1/8", "1/16", "1/32", "1/64", "1/128"], 3)
+    stages, prev_mode = [], None
+    shared = dict(weight_decay=rng.choice(["0", "1/8"]))
+    for si in range(rng.choice([2, 2, 3])):
+        mode = rng.choice(["default", "default", "explicit", "shared_dict"] + (["reuse", "reuse"] if si else []))
+        kind = rng.choice(["sgd", "adam"]) if channel == "torch" else "sgd"
+        o = dict(kind=kind, lr=lrs[si], momentum="0", dampening="0", wd="0",
+                 step_size=rng.choice([0, 0, 1, 2]), gamma=rng.choice(["1/2", "3/4"]), freq=rng.choice([1, 2]))
+        if mode == "explicit":
+            o["wd"] = rng.choice(["0", "1/8"])
+            if kind == "sgd":
+                o["momentum"] = rng.choice(["0", "1/2"])
+        st = dict(mode=mode, opt=o, N=rng.randint(1, 4), rebuild=rng.random() < 0.4,
+                  sanity=bool(case["val"]) and rng.random() < 0.3)
+        if mode == "reuse":
+            st["change_class"] = rng.random() < 0.3
+            st["change_sched"] = rng.random() < 0.5
+        stages.append(st)
+    case["stages"] = stages
+    case["shared_args"] = shared
+    case["N"] = sum(st["N"] for st in stages)
+    case["val_every"] = 0
+    return case
+
+
+def history_settings(case, tp, torch):
+    """generator of (setting object handed to the Solver, values the reference loop uses) per stage"""
+    shared = {k: float(Fraction(v)) for k, v in case["shared_args"].items()}   # ONE user dict for all `shared_dict` stages
+    prev = None           # (setting, cls, args, lr, sched)
+    for st in case["stages"]:          # lazily: a reused setting is changed only when its stage starts
+        cls, args, lr, sched = opt_values(tp, torch, st["opt"])
+        mode = st["mode"]
+        if mode == "reuse" and prev is not None:
+            setting, pcls, pargs, plr, psched = prev
+            setting.lr = lr                                   # "coarse, then fine" with the same setting object
+            if st.get("change_class") and not pargs:
+                setting.optimizer_class = cls
+            else:
+                cls = pcls
+            args = pargs
+            if st.get("change_sched"):
+                setting.scheduler_class = sched.get("scheduler_class")
+                setting.scheduler_args = sched.get("scheduler_args", {})
+                setting.scheduler_frequency = sched.get("scheduler_frequency", 1)
+            else:
+                sched = psched
+        elif mode == "default" or mode == "reuse":
+            args = {}                                         # the library's default `optimizer_args={}`
+            setting = tp.solver.OptimizerSetting(cls, lr, **sched)
+        elif mode == "shared_dict":
+            args = dict(shared)
+            setting = tp.solver.OptimizerSetting(cls, lr, optimizer_args=shared, **sched)
+        else:
+            setting = tp.solver.OptimizerSetting(cls, lr, optimizer_args=dict(args), **sched)
+        prev = (setting, cls, dict(args), lr, dict(sched))
+        yield prev
+
+
+def run_history(case):
+    """the same history through Solver/trainer.fit and through the reference loop"""
+    tp = common.use_repo()
+    import torch
+    res = dict(stages=[])
+    sets_impl = history_settings(case, tp, torch)
+    sets_ref = history_settings(case, tp, torch)
+    B = R = None
+    for si, st in enumerate(case["stages"]):
+        sc = dict(case, N=st["N"], sanity=st["sanity"], val_every=0, opt=st["opt"])
+        if B is None or st["rebuild"]:
+            B, R = build(sc), build(sc)
+        setting, cls, args, lr, sched = next(sets_impl)
+        B.solver = tp.solver.Solver(B.train, B.val, optimizer_setting=setting)    # condition objects shared across solvers
+        _, rec = run_impl(sc, B=B)
+        _, rcls, rargs, rlr, rsched = next(sets_ref)
+        R.opt_class, R.opt_args, R.lr, R.sched = rcls, rargs, rlr, rsched
+        _, ref = run_reference(sc, B=R)
+        res["stages"].append((sc, rec, ref))
+    res["B"], res["R"] = B, R
+    return res
+
+
+def judge_history(rep, case, res):
+    for si, (sc, rec, ref) in enumerate(res["stages"]):
+        st = case["stages"][si]
+        what = (f"fit number {si + 1} of {len(case['stages'])} in one process (setting: {st['mode']}, {st['opt']['kind']}, lr={st['opt']['lr']}, "
+                f"{'fresh objects' if st['rebuild'] or si == 0 else 'same condition/model objects as before'}): ")
+        if "error" in rec:
+            rep.fail(what + f"trainer.fit raised {rec['error']}", case)
+            return
+        d = first_tensor_diff(rec["tens"], ref["tens"])
+        if d is not None:
+            j, name, got, want = d
+            rep.fail(what + f"after step {j} the learnable tensor {name} trained through the Solver is {got}, the reference loop with the "
+                     f"configured optimizer (lr={st['opt']['lr']}) and scheduler gives {want}", case,
+                     detail=dict(stage=si, step=j, tensor=name, solver=got, reference=want))
+            return
+        if [float(x) for x in rec["lr"]][:1] != [float(x) for x in ref["lr"]][:1]:
+            rep.fail(what + f"learning rate after the fit: Solver {rec['lr']}, reference loop {ref['lr']}", case)
+            return
+        B = res["B"]
+        for name in train_reachable(sc, B):
+            so, ro = rec["opt"].get(name), ref["opt"].get(name)
+            if so is None:
+                rep.fail(what + f"learnable tensor {name} was not handed to the optimizer", case)
+                return
+            for k in ro:
+                a, b = so.get(k), ro[k]
+                same = (a is not None) and (bool(((a == b) | (a.isnan() & b.isnan())).all()) if B.torch.is_tensor(b) else a == b)
+                if not same:
+                    rep.fail(what + f"optimizer state '{k}' of {name}: Solver {a}, reference loop {b}", case)
+                    return
+
+
 def gen_cases(ctx):
     rng = ctx.rng
     cases = []
+    for _ in range(ctx.scale(30, 300)):
+        cases.append(gen_history(rng, rng.choice(["rat", "torch"])))
     for _ in range(ctx.scale(100, 1000)):
         cases.append(tame(gen_case_rat(rng)))
     for _ in range(ctx.scale(25, 250)):
@@ -885,10 +1017,25 @@ def gen_cases(ctx):
 def run(ctx, rep, cases=None):
     rep.rule = ("seeded set-ups of 1-4 training conditions (PINN / mean / data / parameter-penalty / adaptive-weight / iteration-probe), "
                 "0-2 validation conditions, shared and unshared models, inverse-problem parameters, SGD(+momentum, weight decay)/Adam, "
-                "StepLR, N<=8 steps; a case is non-trivial if N>=2 and some learnable tensor moves; distinct = distinct set-ups")
+                "StepLR, N<=8 steps; plus histories of 2-3 solvers fitted one after the other in one process (default / explicit / shared-dict "
+                "optimizer_args, a reused OptimizerSetting with changed fields, shared condition and model objects); a case is non-trivial if "
+                "N>=2 and some learnable tensor moves (history: >=2 fits with different learning rates); distinct = distinct set-ups")
     cases = cases if cases is not None else gen_cases(ctx)
     done = []
-    for case in cases:
+    for case in [c for c in cases if "stages" in c]:
+        res = run_history(case)
+        last = res["stages"][-1][1]
+        rep.case(case, len(case["stages"]) >= 2 and len({st["opt"]["lr"] for st in case["stages"]}) >= 2,
+                 sample=dict(case=dict(describe(case), stages=[(st["mode"], st["opt"]["kind"], st["opt"]["lr"], st["N"], st["rebuild"]) for st in case["stages"]]),
+                             final_state={res["B"].names[i]: v for i, v in list(last.get("traj_final", {}).items())[:6]}),
+                 kind="history")
+        rep.count("history"); rep.count(f"history:stages={len(case['stages'])}")
+        for si, st in enumerate(case["stages"]):
+            rep.count("history:setting=" + st["mode"]); rep.count("history:opt=" + st["opt"]["kind"])
+            if si and not st["rebuild"]:
+                rep.count("history:shared-objects")
+        judge_history(rep, case, res)
+    for case in [c for c in cases if "stages" not in c]:
         B, rec = run_impl(case)
         Bref, ref = run_reference(case)
         line = model_request(case, build(case)) if case["channel"] == "rat" else None
